@@ -22,7 +22,8 @@ N = {"quick": 420, "thorough": 7000}
 NCTRL = {"quick": 30, "thorough": 200}
 CASE_TIMEOUT = {"quick": 300, "thorough": 900}
 NSAMPLES = 4
-FAMILIES = ["default", "bounded", "bounded", "scaled", "convex", "convex_boundary", "regression", "regularised", "soft", "hard", "averaged"]
+FAMILIES = ["default", "bounded", "bounded", "scaled", "convex", "convex_boundary", "regression", "regularised", "soft", "hard", "averaged",
+            "convex_face", "convex_face"]
 
 
 def cases(tier, seed):
@@ -52,14 +53,41 @@ def make_cfg(seed, i, control=False):
         cfg["args"]["rhoend"] = box["rhobeg"] * float(10.0 ** rng.integers(-6, -2))
         if box["scaling"]:
             cfg["args"]["scaling_within_bounds"] = True
-    if fam in ("convex", "convex_boundary"):
+    if fam in ("convex", "convex_boundary", "convex_face"):
         sets, z, margin = gen.gen_convex_sets(rng, n, nsets=int(rng.integers(1, 3)))
         cfg["proj"] = sets
         if fam == "convex":
             cfg["x0"] = (z + 0.3 * margin * rng.normal(size=n) / np.sqrt(n)).tolist()
         else:
             # x0 far outside: solve projects it onto the boundary of the feasible set
-            if r() < 0.5:
+            u3 = 0.0 if fam == "convex_face" else r()
+            if u3 < 0.25:
+                # box (as a projection and / or as bounds) with the start on a face / edge / vertex: some coordinates on their upper
+                # bound, some on the lower one, some free. Coordinate steps that project straight back onto x0 make the initial
+                # directions linearly dependent, and the start-up has to repair them (deterministically).
+                n = int(gen.pick(rng, [3, 3, 4]))
+                spec = gen.gen_problem(rng, kinds=("linear", "sinlin", "rosen"), n=n, m=int(rng.integers(n, n + 3)))
+                cfg["prob"] = spec
+                lo = z[:1].repeat(n) * 0 + rng.normal(size=n) - 1.0
+                hi = lo + 2.0 + rng.random(n)
+                pat = [int(v) for v in rng.integers(0, 3, size=n)]   # 0 free, 1 on upper, 2 on lower
+                if all(p == pat[0] for p in pat):
+                    pat[0], pat[-1] = 1, 2
+                x0 = lo + (hi - lo) * rng.uniform(0.3, 0.7, size=n)
+                for j, p in enumerate(pat):
+                    if p == 1:
+                        x0[j] = hi[j] + (0.0 if r() < 0.5 else float(rng.random()))
+                    elif p == 2:
+                        x0[j] = lo[j] - (0.0 if r() < 0.5 else float(rng.random()))
+                margin = 1.0
+                z = 0.5 * (lo + hi)
+                sets[:] = [dict(type="ball", c=z.tolist(), r=float(2.0 * np.linalg.norm(hi - lo)))]
+                if r() < 0.5:
+                    sets.append(dict(type="box", l=lo.tolist(), u=hi.tolist()))
+                else:
+                    cfg["lower"], cfg["upper"] = lo.tolist(), hi.tolist()
+                cfg["x0"] = x0.tolist()
+            elif u3 < 0.7:
                 sets[:] = [dict(type="ball", c=z.tolist(), r=float(margin))]
                 e = np.zeros(n)
                 e[int(rng.integers(n))] = float(gen.pick(rng, [-1.0, 1.0]))
